@@ -513,17 +513,18 @@ class SymFile:
     def seek(self, off, whence=0):
         self._chk()
         if whence == 0:
-            if is_c(norm(off)) and norm(off) < 0:
-                raise ValueError(f"negative seek value {off}")
-            if not is_c(norm(off)) and E.branch(zt(off) < 0):
-                raise ValueError("negative seek value")
-            self.pos = norm(off)
+            tgt = norm(off)
         elif whence == 1:
-            self.pos = norm(zt(self.pos) + zt(off))
+            tgt = norm(zt(self.pos) + zt(off))
         elif whence == 2:
-            self.pos = norm(zt(self._state().length) + zt(off))
+            tgt = norm(zt(self._state().length) + zt(off))
         else:
             raise ValueError(f"invalid whence ({whence}, should be 0, 1 or 2)")
+        # a buffered file refuses a negative target position with EINVAL (io.BytesIO raises
+        # ValueError instead; the library only seeks on files)
+        if (is_c(tgt) and tgt < 0) or (not is_c(tgt) and E.branch(zt(tgt) < 0)):
+            raise OSError(22, "Invalid argument")
+        self.pos = tgt
         return self.pos
 
     def tell(self):
